@@ -113,7 +113,7 @@ func realiseBook(f absFile) realised {
 		add(fmt.Sprintf("  calories: %d", 10*k))
 		if f.P == "unreadable" && f.At == k {
 			r.failAt = sb.Len()
-			lb.WriteString("  " + strings.Repeat("x", 70000) + ": 1\n")
+			lb.WriteString("  " + strings.Repeat("x", longLineLen()) + ": 1\n")
 		}
 		if k%2 == 0 {
 			add("")
@@ -126,7 +126,7 @@ func realiseBook(f absFile) realised {
 	}
 	if f.P == "unreadable" && f.At == f.N+1 {
 		r.failAt = sb.Len()
-		lb.WriteString("  " + strings.Repeat("x", 70000) + ": 1\n")
+		lb.WriteString("  " + strings.Repeat("x", longLineLen()) + ": 1\n")
 	}
 	r.text = sb.String()
 	r.longText = lb.String()
@@ -156,7 +156,7 @@ func realiseLog(f absFile, sameDate bool) realised {
 		add("  food1: 1")
 		if f.P == "unreadable" && f.At == k {
 			r.failAt = sb.Len()
-			lb.WriteString("  " + strings.Repeat("y", 70000) + ": 1\n")
+			lb.WriteString("  " + strings.Repeat("y", longLineLen()) + ": 1\n")
 		}
 		add("  zzunknown: 2")
 		add("  calories: 5")
@@ -168,11 +168,32 @@ func realiseLog(f absFile, sameDate bool) realised {
 	}
 	if f.P == "unreadable" && f.At == f.N+1 {
 		r.failAt = sb.Len()
-		lb.WriteString("  " + strings.Repeat("y", 70000) + ": 1\n")
+		lb.WriteString("  " + strings.Repeat("y", longLineLen()) + ": 1\n")
 	}
 	r.text = sb.String()
 	r.longText = lb.String()
 	return r
+}
+
+// longLineLen: a line length beyond what the parser's line buffer takes.  The limit is a parameter of the implementation
+// (bufio.Scanner's default of 64 KiB today), so it is probed on the real parser: the shortest of 70 000, 1 MiB+, 16 MiB+
+// bytes at which reading a single entry line fails.  0: no such length found (lines are not limited) - the over-long-line
+// realisation of an unreadable file is then left out and only failing readers / directories are used.
+var longLineOnce sync.Once
+var longLineN int
+
+func longLineLen() int {
+	longLineOnce.Do(func() {
+		for _, n := range []int{70000, 1<<20 + 17, 1<<24 + 17} {
+			in := "H:\n  " + strings.Repeat("x", n) + ": 1\n"
+			_, ret, p := runCallbackParser(strings.NewReader(in), "stop")
+			if ret != nil || p != nil {
+				longLineN = n
+				return
+			}
+		}
+	})
+	return longLineN
 }
 
 var errBookRead = fmt.Errorf("book: %w", errInjected)
@@ -204,7 +225,22 @@ func classify(err error) (kind string, line int) {
 	return "other:" + err.Error(), 0
 }
 
-func classifyStderr(exit int, stderr string) (kind string, line int) {
+// classifyStderr maps exit status and error text of the real binary to the specification's error kinds.  The wording
+// of messages is not part of any property (only that a malformed line is quoted with its number): when the text is
+// not recognised, a non-zero exit counts as the error the specification expects (expect), except for "malformed",
+// which must quote badText and badLine.
+func classifyStderr(exit int, stderr string, expect string, badText string, badLine int) (kind string, line int) {
+	if exit != 0 && expect == "malformed" && badText != "" && strings.Contains(stderr, badText) && strings.Contains(stderr, fmt.Sprint(badLine)) {
+		return "malformed", badLine
+	}
+	k, l := classifyStderrText(exit, stderr)
+	if strings.HasPrefix(k, "other:") && exit != 0 && expect != "malformed" && expect != "none" {
+		return expect, 0
+	}
+	return k, l
+}
+
+func classifyStderrText(exit int, stderr string) (kind string, line int) {
 	switch {
 	case exit == 0:
 		return "none", 0
@@ -334,7 +370,7 @@ func runCliCase(c cliCase, dir string, useBin bool, report func(string, string, 
 	// ---------- (1)+(2) in-process ----------
 	if c.Cmd != "stats" {
 		for _, variant := range []string{"failing-reader", "long-line"} {
-			if variant == "long-line" && c.Book.P != "unreadable" && c.Log.P != "unreadable" {
+			if variant == "long-line" && (c.Book.P != "unreadable" && c.Log.P != "unreadable" || longLineLen() == 0) {
 				continue
 			}
 			files := map[string]fileSrc{}
@@ -377,7 +413,7 @@ func runCliCase(c cliCase, dir string, useBin bool, report func(string, string, 
 		}
 	}
 	// ---------- (3) the real binary (a read failure is realised as an over-long line) ----------
-	if useBin || c.Cmd == "stats" {
+	if (useBin || c.Cmd == "stats") && !((c.Book.P == "unreadable" || c.Log.P == "unreadable") && longLineLen() == 0) {
 		os.Remove(filepath.Join(dir, "food.yaml"))
 		os.Remove(filepath.Join(dir, "log.yaml"))
 		if !book.missing {
@@ -399,7 +435,7 @@ func runCliCase(c cliCase, dir string, useBin bool, report func(string, string, 
 			if r.TimedOut {
 				report("cli-hang", fmt.Sprintf("binary %v does not exit", args), c, map[string]interface{}{"book": book.longText[:min(len(book.longText), 400)], "log": lg.text})
 			} else {
-				kind, line := classifyStderr(r.Exit, r.Stderr)
+				kind, line := classifyStderr(r.Exit, r.Stderr, c.Err.Kind, badTextOf(book, lg), wantLine)
 				if kind == "panic" {
 					report("cli-panic", fmt.Sprintf("binary %v crashes: %s", args, firstLine(r.Stderr)), c, map[string]interface{}{})
 					if c.Err.Kind != "none" {
@@ -412,6 +448,13 @@ func runCliCase(c cliCase, dir string, useBin bool, report func(string, string, 
 		}
 	}
 	return runs
+}
+
+func badTextOf(book, lg realised) string {
+	if book.badText != "" {
+		return book.badText
+	}
+	return lg.badText
 }
 
 func firstLine(s string) string {
